@@ -29,7 +29,7 @@ RULE = (
     "the AST dependency graph, then reads X again.  Distinct = SHA-1 of the case."
 )
 ASSUMPTIONS = ["'discard all cached results' is Kconfig._invalidate_all(), the mechanism named in the property's anchors"]
-BUDGET = {"quick": {"examples": 8000}, "thorough": {"examples": 160000, "deadline_s": 900}}
+BUDGET = {"quick": {"examples": 8000}, "thorough": {"examples": 400000, "deadline_s": 900}}
 
 CFG = gen.cfg(max_syms=14, p_set=25, p_wset=25, p_set_symval=60, set_symval_numeric=True, p_range_sym=45, p_select=28, p_imply=22, p_choice=24, p_bare=25, type_weights=[(40, "bool"), (18, "int"), (9, "hex"), (24, "string"), (9, "float")])
 KINDS = [(40, "set"), (10, "unset"), (10, "reset"), (4, "reset_menu"), (6, "read"), (8, "load_hand"), (4, "write"), (4, "load_slot")]
